@@ -60,7 +60,8 @@ Record state := {
   fxh : Z;                        (* height of the block being built *)
   bal : ledger;
   prm : params;
-  toks : list (Z * tkind)
+  toks : list (Z * tkind);
+  relation : list Z               (* x/erc20 outgoing transfer relation of this module: ids of live transfers started from the EVM with an ERC-20 token *)
 }.
 
 Inductive cause := ByTimeout | BySupersede | ByFailure.
@@ -78,6 +79,7 @@ Inductive res := Ok | Err | Panic.
 
 Inductive op :=
 | Send (sender dest amount fee token : Z)
+| SendP (sender dest amount fee token : Z)
 | Cancel (id who : Z)
 | IncreaseFee (id who add token which : Z)
 | RequestBatch (token which feercv basefee minfee : Z) (auth : bool)
@@ -100,17 +102,18 @@ Notation "'do' x <- r ; k" := (bind r (fun x => k)) (at level 200, x pattern, r 
 Definition must {A} (r : R A) : R A := match r with RErr => RPanic | x => x end.
 
 (* ---------- field updates ---------- *)
-Definition set_pool (s : state) v := {| pool := v; batches := batches s; by_block := by_block s; next_tx := next_tx s; next_batch := next_batch s; next_call := next_call s; calls := calls s; by_sender := by_sender s; from_msg := from_msg s; pending := pending s; evn := evn s; obs_ext := obs_ext s; obs_fx := obs_fx s; fxh := fxh s; bal := bal s; prm := prm s; toks := toks s |}.
-Definition set_batches (s : state) v w := {| pool := pool s; batches := v; by_block := w; next_tx := next_tx s; next_batch := next_batch s; next_call := next_call s; calls := calls s; by_sender := by_sender s; from_msg := from_msg s; pending := pending s; evn := evn s; obs_ext := obs_ext s; obs_fx := obs_fx s; fxh := fxh s; bal := bal s; prm := prm s; toks := toks s |}.
-Definition set_next_tx (s : state) v := {| pool := pool s; batches := batches s; by_block := by_block s; next_tx := v; next_batch := next_batch s; next_call := next_call s; calls := calls s; by_sender := by_sender s; from_msg := from_msg s; pending := pending s; evn := evn s; obs_ext := obs_ext s; obs_fx := obs_fx s; fxh := fxh s; bal := bal s; prm := prm s; toks := toks s |}.
-Definition set_next_batch (s : state) v := {| pool := pool s; batches := batches s; by_block := by_block s; next_tx := next_tx s; next_batch := v; next_call := next_call s; calls := calls s; by_sender := by_sender s; from_msg := from_msg s; pending := pending s; evn := evn s; obs_ext := obs_ext s; obs_fx := obs_fx s; fxh := fxh s; bal := bal s; prm := prm s; toks := toks s |}.
-Definition set_next_call (s : state) v := {| pool := pool s; batches := batches s; by_block := by_block s; next_tx := next_tx s; next_batch := next_batch s; next_call := v; calls := calls s; by_sender := by_sender s; from_msg := from_msg s; pending := pending s; evn := evn s; obs_ext := obs_ext s; obs_fx := obs_fx s; fxh := fxh s; bal := bal s; prm := prm s; toks := toks s |}.
-Definition set_calls (s : state) v w m := {| pool := pool s; batches := batches s; by_block := by_block s; next_tx := next_tx s; next_batch := next_batch s; next_call := next_call s; calls := v; by_sender := w; from_msg := m; pending := pending s; evn := evn s; obs_ext := obs_ext s; obs_fx := obs_fx s; fxh := fxh s; bal := bal s; prm := prm s; toks := toks s |}.
-Definition set_pending (s : state) v := {| pool := pool s; batches := batches s; by_block := by_block s; next_tx := next_tx s; next_batch := next_batch s; next_call := next_call s; calls := calls s; by_sender := by_sender s; from_msg := from_msg s; pending := v; evn := evn s; obs_ext := obs_ext s; obs_fx := obs_fx s; fxh := fxh s; bal := bal s; prm := prm s; toks := toks s |}.
-Definition set_obs (s : state) e x f := {| pool := pool s; batches := batches s; by_block := by_block s; next_tx := next_tx s; next_batch := next_batch s; next_call := next_call s; calls := calls s; by_sender := by_sender s; from_msg := from_msg s; pending := pending s; evn := e; obs_ext := x; obs_fx := f; fxh := fxh s; bal := bal s; prm := prm s; toks := toks s |}.
-Definition set_fxh (s : state) v := {| pool := pool s; batches := batches s; by_block := by_block s; next_tx := next_tx s; next_batch := next_batch s; next_call := next_call s; calls := calls s; by_sender := by_sender s; from_msg := from_msg s; pending := pending s; evn := evn s; obs_ext := obs_ext s; obs_fx := obs_fx s; fxh := v; bal := bal s; prm := prm s; toks := toks s |}.
-Definition set_bal (s : state) v := {| pool := pool s; batches := batches s; by_block := by_block s; next_tx := next_tx s; next_batch := next_batch s; next_call := next_call s; calls := calls s; by_sender := by_sender s; from_msg := from_msg s; pending := pending s; evn := evn s; obs_ext := obs_ext s; obs_fx := obs_fx s; fxh := fxh s; bal := v; prm := prm s; toks := toks s |}.
-Definition set_prm (s : state) v := {| pool := pool s; batches := batches s; by_block := by_block s; next_tx := next_tx s; next_batch := next_batch s; next_call := next_call s; calls := calls s; by_sender := by_sender s; from_msg := from_msg s; pending := pending s; evn := evn s; obs_ext := obs_ext s; obs_fx := obs_fx s; fxh := fxh s; bal := bal s; prm := v; toks := toks s |}.
+Definition set_pool (s : state) v := {| pool := v; batches := batches s; by_block := by_block s; next_tx := next_tx s; next_batch := next_batch s; next_call := next_call s; calls := calls s; by_sender := by_sender s; from_msg := from_msg s; pending := pending s; evn := evn s; obs_ext := obs_ext s; obs_fx := obs_fx s; fxh := fxh s; bal := bal s; prm := prm s; toks := toks s; relation := relation s |}.
+Definition set_batches (s : state) v w := {| pool := pool s; batches := v; by_block := w; next_tx := next_tx s; next_batch := next_batch s; next_call := next_call s; calls := calls s; by_sender := by_sender s; from_msg := from_msg s; pending := pending s; evn := evn s; obs_ext := obs_ext s; obs_fx := obs_fx s; fxh := fxh s; bal := bal s; prm := prm s; toks := toks s; relation := relation s |}.
+Definition set_next_tx (s : state) v := {| pool := pool s; batches := batches s; by_block := by_block s; next_tx := v; next_batch := next_batch s; next_call := next_call s; calls := calls s; by_sender := by_sender s; from_msg := from_msg s; pending := pending s; evn := evn s; obs_ext := obs_ext s; obs_fx := obs_fx s; fxh := fxh s; bal := bal s; prm := prm s; toks := toks s; relation := relation s |}.
+Definition set_next_batch (s : state) v := {| pool := pool s; batches := batches s; by_block := by_block s; next_tx := next_tx s; next_batch := v; next_call := next_call s; calls := calls s; by_sender := by_sender s; from_msg := from_msg s; pending := pending s; evn := evn s; obs_ext := obs_ext s; obs_fx := obs_fx s; fxh := fxh s; bal := bal s; prm := prm s; toks := toks s; relation := relation s |}.
+Definition set_next_call (s : state) v := {| pool := pool s; batches := batches s; by_block := by_block s; next_tx := next_tx s; next_batch := next_batch s; next_call := v; calls := calls s; by_sender := by_sender s; from_msg := from_msg s; pending := pending s; evn := evn s; obs_ext := obs_ext s; obs_fx := obs_fx s; fxh := fxh s; bal := bal s; prm := prm s; toks := toks s; relation := relation s |}.
+Definition set_calls (s : state) v w m := {| pool := pool s; batches := batches s; by_block := by_block s; next_tx := next_tx s; next_batch := next_batch s; next_call := next_call s; calls := v; by_sender := w; from_msg := m; pending := pending s; evn := evn s; obs_ext := obs_ext s; obs_fx := obs_fx s; fxh := fxh s; bal := bal s; prm := prm s; toks := toks s; relation := relation s |}.
+Definition set_pending (s : state) v := {| pool := pool s; batches := batches s; by_block := by_block s; next_tx := next_tx s; next_batch := next_batch s; next_call := next_call s; calls := calls s; by_sender := by_sender s; from_msg := from_msg s; pending := v; evn := evn s; obs_ext := obs_ext s; obs_fx := obs_fx s; fxh := fxh s; bal := bal s; prm := prm s; toks := toks s; relation := relation s |}.
+Definition set_obs (s : state) e x f := {| pool := pool s; batches := batches s; by_block := by_block s; next_tx := next_tx s; next_batch := next_batch s; next_call := next_call s; calls := calls s; by_sender := by_sender s; from_msg := from_msg s; pending := pending s; evn := e; obs_ext := x; obs_fx := f; fxh := fxh s; bal := bal s; prm := prm s; toks := toks s; relation := relation s |}.
+Definition set_fxh (s : state) v := {| pool := pool s; batches := batches s; by_block := by_block s; next_tx := next_tx s; next_batch := next_batch s; next_call := next_call s; calls := calls s; by_sender := by_sender s; from_msg := from_msg s; pending := pending s; evn := evn s; obs_ext := obs_ext s; obs_fx := obs_fx s; fxh := v; bal := bal s; prm := prm s; toks := toks s; relation := relation s |}.
+Definition set_bal (s : state) v := {| pool := pool s; batches := batches s; by_block := by_block s; next_tx := next_tx s; next_batch := next_batch s; next_call := next_call s; calls := calls s; by_sender := by_sender s; from_msg := from_msg s; pending := pending s; evn := evn s; obs_ext := obs_ext s; obs_fx := obs_fx s; fxh := fxh s; bal := v; prm := prm s; toks := toks s; relation := relation s |}.
+Definition set_relation (s : state) v := {| pool := pool s; batches := batches s; by_block := by_block s; next_tx := next_tx s; next_batch := next_batch s; next_call := next_call s; calls := calls s; by_sender := by_sender s; from_msg := from_msg s; pending := pending s; evn := evn s; obs_ext := obs_ext s; obs_fx := obs_fx s; fxh := fxh s; bal := bal s; prm := prm s; toks := toks s; relation := v |}.
+Definition set_prm (s : state) v := {| pool := pool s; batches := batches s; by_block := by_block s; next_tx := next_tx s; next_batch := next_batch s; next_call := next_call s; calls := calls s; by_sender := by_sender s; from_msg := from_msg s; pending := pending s; evn := evn s; obs_ext := obs_ext s; obs_fx := obs_fx s; fxh := fxh s; bal := bal s; prm := v; toks := toks s; relation := relation s |}.
 
 (* ---------- bank ledger (projection: the accounts and denoms involved) ---------- *)
 Definition key_eqb (a b : acct_key) : bool :=
@@ -326,6 +329,35 @@ Definition do_send (s : state) (sender dest amount fee token : Z) : R (state * l
       ROk (set_pool (set_bal s1 l) p, [EvTxCreated id])
   end.
 
+(* x/crosschain/precompile/crosschain.go (target = this module): msg.value of FX (origin token: no relation), or an
+   ERC-20 token of a registered coin (handlerERC20Token: transferFrom to the erc20 module, burn, base coins released to
+   the caller), then AddToOutgoingPool and, for the ERC-20 case, erc20 SetOutgoingTransferRelation(module, id).
+   CrossChainArgs.Validate: amount > 0, fee >= 0. *)
+Definition do_send_p (s : state) (sender dest amount fee token : Z) : R (state * list event) :=
+  if (amount <=? 0) || (fee <? 0) then RErr else
+  let id := next_tx s in
+  let s1 := set_next_tx s (id + 1) in
+  match kind_of (toks s) token with
+  | Some KNative =>
+      do l <- base_to_bridge (bal s1) KNative sender token (amount + fee);
+      do p <- add_unbatched (mk_tx id sender dest token amount fee) (pool s1);
+      ROk (set_pool (set_bal s1 l) p, [EvTxCreated id])
+  | Some KCoin =>
+      do l0 <- debit (bal s1) (sender, token, 2) (amount + fee);
+      do l1 <- debit l0 (ERC20MOD, token, 0) (amount + fee);
+      do l <- base_to_bridge (credit l1 (sender, token, 0) (amount + fee)) KCoin sender token (amount + fee);
+      do p <- add_unbatched (mk_tx id sender dest token amount fee) (pool s1);
+      ROk (set_relation (set_pool (set_bal s1 l) p) (id :: relation s1), [EvTxCreated id])
+  | _ => RErr
+  end.
+
+(* erc20 HookOutgoingRefund = ConvertCoin(base coins -> ERC-20 of the same account) *)
+Definition hook_refund (l : ledger) (k : tkind) (who t amt : Z) : R ledger :=
+  match k with
+  | KCoin => do l1 <- debit l (who, t, 0) amt; ROk (credit (credit l1 (ERC20MOD, t, 0) amt) (who, t, 2) amt)
+  | _ => RErr
+  end.
+
 (* MsgCancelSendToExternal.ValidateBasic + RemoveFromOutgoingPoolAndRefund *)
 Definition do_cancel (s : state) (id who : Z) : R (state * list event) :=
   if id <? 1 then RErr else
@@ -339,6 +371,12 @@ Definition do_cancel (s : state) (id who : Z) : R (state * list event) :=
       | None => RErr
       | Some k =>
           do l <- bridge_to_base (bal s) k who (tx_token x) (tx_amount x + tx_fee x);
+          (* handleOutgoingTransferRelation: a transfer started from the EVM is refunded as ERC-20 (HookOutgoingRefund) *)
+          if existsb (Z.eqb id) (relation s) then
+            do l2 <- hook_refund l k who (tx_token x) (tx_amount x + tx_fee x);
+            ROk (set_relation (set_pool (set_bal s l2) p) (filter (fun r => negb (r =? id)) (relation s)),
+                 [EvTxRefund id who (tx_amount x + tx_fee x) (tx_token x)])
+          else
           ROk (set_pool (set_bal s l) p, [EvTxRefund id who (tx_amount x + tx_fee x) (tx_token x)])
       end
   end.
@@ -400,7 +438,9 @@ Definition batch_executed (s : state) (token nonce : Z) : R (state * list event)
   | Some b =>
       do x <- cancel_where BySupersede (fun ib => (b_nonce ib <? b_nonce b) && (b_token ib =? token)) false (batches s) s;
       let s1 := fst x in
-      ROk (set_batches s1 (batch_remove token nonce (batches s1)) (block_remove (b_block b) (by_block s1)),
+      let s2 := set_batches s1 (batch_remove token nonce (batches s1)) (block_remove (b_block b) (by_block s1)) in
+      (* DeleteOutgoingTransferRelation for every transfer of the executed batch *)
+      ROk (set_relation s2 (filter (fun r => negb (existsb (fun x => tx_id x =? r) (b_txs b))) (relation s2)),
            snd x ++ [EvBatchExecuted token nonce])
   end.
 
@@ -500,6 +540,7 @@ Definition params_ok (p : params) : bool :=
 Definition exec (s : state) (o : op) : R (state * list event) :=
   match o with
   | Send sender dest amount fee token => do_send s sender dest amount fee token
+  | SendP sender dest amount fee token => do_send_p s sender dest amount fee token
   | Cancel id who => do_cancel s id who
   | IncreaseFee id who add token which => do_increase s id who add token which
   | RequestBatch token which feercv basefee minfee auth => do_request_batch s token which feercv basefee minfee auth
@@ -530,7 +571,7 @@ Definition run (s : state) (ops : list op) : state := fold_left step_state ops s
 Definition init (p : params) (ts : list (Z * tkind)) (l : ledger) (h0 : Z) : state :=
   {| pool := []; batches := []; by_block := []; next_tx := 1; next_batch := 1; next_call := 1;
      calls := []; by_sender := []; from_msg := []; pending := []; evn := 0; obs_ext := 0; obs_fx := 0;
-     fxh := h0; bal := l; prm := p; toks := ts |}.
+     fxh := h0; bal := l; prm := p; toks := ts; relation := [] |}.
 
 (* ---------- genesis export + import of the module (keeper/genesis.go ExportGenesis, InitGenesis) ----------
    Exported: params, last observed event nonce / heights, unbatched transfers, batches (StoreBatch rebuilds the block
@@ -539,7 +580,7 @@ Definition init (p : params) (ts : list (Z * tkind)) (l : ledger) (h0 : Z) : sta
 Definition export_import (s : state) : state :=
   {| pool := pool s; batches := batches s; by_block := by_block s; next_tx := 1; next_batch := 1; next_call := 1;
      calls := []; by_sender := []; from_msg := []; pending := []; evn := evn s; obs_ext := obs_ext s; obs_fx := obs_fx s;
-     fxh := fxh s; bal := bal s; prm := prm s; toks := toks s |}.
+     fxh := fxh s; bal := bal s; prm := prm s; toks := toks s; relation := relation s |}.
 
 (* the same with the counters re-derived from the imported records (smallest patch that avoids collisions with live records) *)
 Definition max_of (l : list Z) : Z := fold_right Z.max 0 l.
